@@ -66,7 +66,8 @@ process:
 	atomic.StoreUint32(&m.status, idle)
 	user := atomic.LoadInt32(&m.num)
 	system := atomic.LoadInt32(&m.systemNum)
-	if user > 0 || system > 0 {
+	// 暂停期间用户消息不可处理：只有系统消息，或未暂停时的用户消息，才需要再次进入处理循环（否则会空转）
+	if system > 0 || (user > 0 && atomic.LoadUint32(&m.paused) == 0) {
 		if atomic.CompareAndSwapUint32(&m.status, idle, processing) {
 			goto process
 		}
